@@ -13,15 +13,17 @@ REQUIRED = ["invariant: resolution*pixel_size == width/height (icontract, after 
 RULE = ("histories: constructor arguments + 1-10 operations drawn from birth_range / pers_range / pixel_size assignments and "
         "fit() on 1-5 diagrams of positive extent; pixel sizes from {0.1,0.2,0.3,0.7,1/3,0.05,0.15,0.6,0.01,0.75,1,random reals}; "
         "ranges that are exact multiples, exact multiples +-1 ulp, inexact quotients (0.3/0.1, 0.7/0.1, 2/0.7, n/3), random reals, "
-        "negative origins; resolution capped at 300 per axis. The class invariant is evaluated by icontract after __init__, every "
+        "negative origins; a quarter of the histories are translated far from the origin (offsets 1e3..2.5e5 units, extents of a few pixels) and / or expressed in units of 1e-9, 1e-6, 1e3; resolution capped at 300 per axis. The class invariant is evaluated by icontract after __init__, every "
         "setter and fit; the lattice is probed behaviourally with single-point diagrams and a uniform kernel of width ps/1000. "
         "non-trivial = history of >=2 operations with at least one inexact quotient; distinct = digest of the history")
 ASSUMPTIONS = ["only public attributes are read: birth_range, pers_range, width, height, resolution, pixel_size, transform output",
                "relative tolerance 1e-9 for the algebraic invariants; probe points are placed >= ps/50 away from pixel borders",
                "containment/excess are judged against the request of the *last* operation only (statement)"]
+REQUIRED_NOTES = ["far-or-rescaled histories"]
 TECHNIQUE = "runtime monitoring: icontract class invariant on PersistenceImager (evaluated after every public mutation) + history recorder + behavioural lattice probe"
 
 PIXELS = [0.1, 0.2, 0.3, 0.7, 1 / 3, 0.05, 0.15, 0.6, 0.01, 0.75, 1.0, 0.25, 0.5]
+FRAME = {"off_b": 0.0, "off_p": 0.0, "unit": 1.0}      # per case: where the data live (far from the origin / at a tiny or large unit)
 INV_LOG = []     # filled by the icontract invariant (records, never raises)
 
 
@@ -79,8 +81,10 @@ def judge_states(ctx, where):
     return n
 
 
-def gen_range(rng, ps):
+def gen_range(rng, ps, axis="b"):
+    u = FRAME["unit"]
     origin = float(rng.choice([0.0, 0.0, -1.0, 0.5, -0.3, 2.0])) if rng.random() < 0.7 else float(rng.normal(0, 3))
+    origin = origin * u + FRAME["off_" + axis]
     style = int(rng.integers(0, 5))
     n = int(rng.integers(1, 40))
     if style == 0:
@@ -88,13 +92,14 @@ def gen_range(rng, ps):
     elif style == 1:
         ext = float(np.nextafter(n * ps, math.inf if rng.random() < 0.5 else -math.inf))
     elif style == 2:
-        ext = float(rng.choice([0.3, 0.7, 2.0, 1.0, 1 / 3, 2 / 3, 0.9, 1.2, 2.1, 4.9, 5.0, 7.0 / 3]))
+        ext = float(rng.choice([0.3, 0.7, 2.0, 1.0, 1 / 3, 2 / 3, 0.9, 1.2, 2.1, 4.9, 5.0, 7.0 / 3])) * u
     elif style == 3:
         ext = float(rng.uniform(0.5, 40)) * ps
     else:
         ext = round(float(rng.uniform(0.2, 5)), int(rng.integers(1, 3)))
         if ext <= 0:
             ext = 1.0
+        ext *= u
     ext = min(max(ext, ps * 0.51), 250 * ps)
     return (origin, origin + ext)
 
@@ -132,7 +137,10 @@ def probe(ctx, P, rng, where):
     pts.append((b0 + 0.5 * ps, p0 + npx * ps - ps / 50, 0, npx - 1))
     outside = [(b0 - ps / 50, p0 + 0.5 * ps), (b0 + nb * ps + ps / 50, p0 + 0.5 * ps),
                (b0 + 0.5 * ps, p0 - ps / 50), (b0 + 0.5 * ps, p0 + npx * ps + ps / 50)]
-    P.kernel_params = {"width": ps / 1000, "height": ps / 1000}
+    far = max(abs(b0) + nb * ps, abs(p0) + npx * ps) / ps
+    kw_ = ps / 1000 if far < 1e4 else ps / 100      # far from the origin a narrower box would be resolved too coarsely by the coordinates themselves
+    ptol = 1e-6 + 64 * np.finfo(float).eps * far * ps / kw_
+    P.kernel_params = {"width": kw_, "height": kw_}
     first = True
     for (b, p, i, j) in pts:
         ctx.ran()
@@ -146,24 +154,36 @@ def probe(ctx, P, rng, where):
             return
         tot = float(img.sum())
         pos = np.unravel_index(int(np.argmax(img)), img.shape)
-        good = abs(img[i, j] - 1.0) <= 1e-6 and abs(tot - 1.0) <= 1e-6
+        good = abs(img[i, j] - 1.0) <= ptol and abs(tot - 1.0) <= ptol
         ctx.check("lattice probe: unit mass lands in the predicted pixel", good, where=where, point=[b, p], predicted=[i, j],
                   landed=[int(pos[0]), int(pos[1])], mass_there=float(img[i, j]), total=tot,
                   public={"birth_range": P.birth_range, "pers_range": P.pers_range, "pixel_size": ps, "resolution": [nb, npx]})
     for (b, p) in outside:
         ctx.ran()
         img = np.asarray(P.transform(np.array([[b, p]]), skew=False))
-        ctx.check("lattice probe: nothing lands for a point outside the region", img.shape == (nb, npx) and abs(float(img.sum())) <= 1e-6,
+        ctx.check("lattice probe: nothing lands for a point outside the region", img.shape == (nb, npx) and abs(float(img.sum())) <= ptol,
                   where=where, point=[b, p], total=float(img.sum()))
     del INV_LOG[:]
 
 
 def run_case(ctx, k, rng):
     del INV_LOG[:]
+    FRAME.update({"off_b": 0.0, "off_p": 0.0, "unit": 1.0})
+    cls = "history"
+    if rng.random() < 0.25:
+        # the same histories where real data live: far from the origin (pressures, years, elevations: extent << coordinates) or in a
+        # tiny / large unit; geometry is translation- and scale-equivariant, absolute or coordinate-relative closeness tests are not
+        u = float(rng.choice([1.0, 1.0, 1e-9, 1e-6, 1e3]))
+        off = float(rng.choice([0.0, 1e3, 1e5, 250000.0, -1e4])) * u
+        FRAME.update({"unit": u, "off_b": off, "off_p": off if rng.random() < 0.3 else 0.0})
+        cls = "history/far" if off else "history/unit"
+        ctx.note("far-or-rescaled histories")
+    U = FRAME["unit"]
     ps = float(rng.choice(PIXELS)) if rng.random() < 0.8 else round(float(rng.uniform(0.02, 1.5)), int(rng.integers(1, 4))) or 0.1
-    br, pr = gen_range(rng, ps), gen_range(rng, ps)
+    ps *= U
+    br, pr = gen_range(rng, ps, "b"), gen_range(rng, ps, "p")
     ops = []
-    ctx.begin(k, "history", {"ctor": {"birth_range": br, "pers_range": pr, "pixel_size": ps}, "ops": ops})
+    ctx.begin(k, cls, {"ctor": {"birth_range": br, "pers_range": pr, "pixel_size": ps}, "ops": ops})
     nontriv = inexact(br[1] - br[0], ps) or inexact(pr[1] - pr[0], ps)
     try:
         ctx.ran()
@@ -187,14 +207,14 @@ def run_case(ctx, k, rng):
         try:
             ctx.ran()
             if op in ("birth_range", "pers_range"):
-                val = gen_range(rng, P.pixel_size)
+                val = gen_range(rng, P.pixel_size, "b" if op == "birth_range" else "p")
                 ops.append({"op": op, "value": val})
                 nontriv = nontriv or inexact(val[1] - val[0], P.pixel_size)
                 setattr(P, op, val)
                 asked = {op: val}
             elif op == "pixel_size":
                 ext = max(P.width, P.height)
-                cand = [q for q in PIXELS if ext / q <= 300 and min(P.width, P.height) / q >= 0.5]
+                cand = [q * U for q in PIXELS if ext / (q * U) <= 300 and min(P.width, P.height) / (q * U) >= 0.5]
                 newps = float(rng.choice(cand)) if cand and rng.random() < 0.8 else ext / float(rng.uniform(2, 60))
                 ops.append({"op": op, "value": newps})
                 nontriv = nontriv or inexact(P.width, newps) or inexact(P.height, newps)
@@ -207,7 +227,10 @@ def run_case(ctx, k, rng):
                 for _ in range(nd):
                     n = int(rng.integers(1, 6))
                     b = rng.uniform(-2, 4, n) if rng.random() < 0.6 else np.round(rng.uniform(-2, 4, n), 1)
-                    pers = rng.uniform(0.05 * cur, 60 * cur, n) if rng.random() < 0.6 else np.round(rng.uniform(0.1, max(30 * cur, 0.2), n), 1) + 0.1
+                    if rng.random() < 0.3:
+                        b = b * float(rng.choice([0.01, 0.1])) * cur / U        # narrow spread of births (a few pixels or less)
+                    b = b * U + FRAME["off_b"]
+                    pers = rng.uniform(0.05 * cur, 60 * cur, n) if (rng.random() < 0.6 or U != 1.0) else np.round(rng.uniform(0.1, max(30 * cur, 0.2), n), 1) + 0.1
                     dg.append(np.column_stack([b, b + pers]))
                 allp = np.vstack(dg)
                 bp = np.column_stack([allp[:, 0], allp[:, 1] - allp[:, 0]])
